@@ -223,7 +223,9 @@ theorem admin_ctrs (y : Sys) :
     (∀ n, ctrs (setStrategy y n).1 = ctrs y) ∧ (∀ n now d, ctrs (eject y n now d).1 = ctrs y) ∧
     (∀ n now ok, ctrs (probe y n now ok).1 = ctrs y) := by
   have hej : ∀ (y : Sys) n now d, ctrs (eject y n now d).1 = ctrs y := by
-    intro y n now d; simp only [eject]; split <;> rfl
+    intro y n now d; simp only [eject]; split
+    · rfl
+    · split <;> rfl
   refine ⟨?_, ?_, ?_, hej y, ?_⟩
   · intro n w a; simp only [add]; split; rfl; split <;> rfl
   · intro n; simp only [remove]; split; rfl; split <;> rfl
